@@ -1020,6 +1020,64 @@ func c15RunCase(t *testing.T, m *c15Mount, c *c15Case, out *vh.Out) {
 // c15Cel: CEL roles (cel/issue/<role>): the role's program computes NotAfter = now + request.ttl itself; the issuer's
 // leaf_not_after_behavior must be applied to it all the same. Op line: cel <behaviour> <ttl s> <issuer ttl s> =>
 // refused | ok na=<seconds from now>
+// c15CaEKU: the CA-producing endpoints (root/generate, sign-intermediate) with ext_key_usage AND ext_key_usage_oids: the
+// certificate must carry what was asked for — dropping a requested extended key usage yields a LESS constrained CA than
+// requested ("refused rather than silently widened"). Op line: caeku <endpoint> => eku:<sorted names>|oids:<n>
+func c15CaEKU(t *testing.T, out *vh.Out) {
+	const oid = "1.3.6.1.4.1.311.20.2.2"
+	for _, ep := range []string{"root", "intermediate"} {
+		b, s := CreateBackendWithStorage(t)
+		do := func(op logical.Operation, path string, data map[string]any) (*logical.Response, error) {
+			return b.HandleRequest(context.Background(), &logical.Request{Storage: s, Operation: op, Path: path, Data: data})
+		}
+		var certPEM string
+		if ep == "root" {
+			resp, err := do(logical.UpdateOperation, "root/generate/internal", map[string]any{"common_name": "root.com", "key_type": "ec",
+				"ext_key_usage": "ServerAuth", "ext_key_usage_oids": oid})
+			if err != nil || resp == nil || resp.IsError() {
+				t.Fatalf("caeku root: %v %v", err, resp)
+			}
+			certPEM = resp.Data["certificate"].(string)
+		} else {
+			resp, err := do(logical.UpdateOperation, "root/generate/internal", map[string]any{"common_name": "root.com", "key_type": "ec"})
+			if err != nil || resp == nil || resp.IsError() {
+				t.Fatalf("caeku root: %v %v", err, resp)
+			}
+			resp, err = do(logical.UpdateOperation, "intermediate/generate/internal", map[string]any{"common_name": "int.com", "key_type": "ec"})
+			if err != nil || resp == nil || resp.IsError() {
+				t.Fatalf("caeku csr: %v %v", err, resp)
+			}
+			resp, err = do(logical.UpdateOperation, "root/sign-intermediate", map[string]any{"csr": resp.Data["csr"], "common_name": "int.com",
+				"ext_key_usage": "ServerAuth", "ext_key_usage_oids": oid})
+			if err != nil || resp == nil || resp.IsError() {
+				t.Fatalf("caeku sign-intermediate: %v %v", err, resp)
+			}
+			certPEM = resp.Data["certificate"].(string)
+		}
+		c := parseCert(t, certPEM)
+		var names []string
+		for _, u := range c.ExtKeyUsage {
+			if u == x509.ExtKeyUsageServerAuth {
+				names = append(names, "serverauth")
+			} else {
+				names = append(names, "other")
+			}
+		}
+		sort.Strings(names)
+		noid := 0
+		for _, o := range c.UnknownExtKeyUsage {
+			if o.String() == oid {
+				noid++
+			}
+		}
+		res := "eku:" + strings.Join(names, "+") + "|oids:" + strconv.Itoa(noid)
+		if len(names) == 0 || noid == 0 {
+			res += "!VIOL:the CA certificate made by " + ep + " was asked for ext_key_usage=ServerAuth and ext_key_usage_oids=" + oid + " and carries " + res + ": a requested constraint was dropped silently#ca-requested-eku-dropped"
+		}
+		out.Op(res, "caeku", ep)
+	}
+}
+
 func c15Cel(t *testing.T, out *vh.Out) {
 	for _, beh := range []string{"err", "truncate", "permit"} {
 		for _, ttl := range []int64{3600, 360000} {
@@ -1084,6 +1142,7 @@ func TestVerifC15(t *testing.T) {
 	defer out.Close()
 	rng := vh.NewRand(vh.Seed())
 	c15Cel(t, out)
+	c15CaEKU(t, out)
 
 	// 1. helper functions
 	nHelper := 4000
